@@ -260,6 +260,57 @@ class PC:  # constructor pattern: Some(p), Dual(p), tuple (name None), None
         return PC(s.name, *[p.sub(m) for p in s.ps])
 
 
+class PRef:  # &pattern (matches through a reference)
+    def __init__(s, p):
+        s.p = p
+
+    def rs(s):
+        return "&" + s.p.rs()
+
+    def match(s, v, env):
+        return s.p.match(v, env)
+
+    def vars(s):
+        return s.p.vars()
+
+    def sub(s, m):
+        return PRef(s.p.sub(m))
+
+
+class ArrIter(Ex):  # [c1, c2, ..].iter()  — an iterator over references to constants
+    def __init__(s, consts):
+        s.consts = consts
+
+    def rs(s, vk):
+        return "[%s].iter()" % ", ".join(rust_repr(c) for c in s.consts)
+
+    def ev(s, env):
+        return list(s.consts)
+
+    def vars(s):
+        return set()
+
+    def sub(s, m):
+        return s
+
+
+class RefOf(Ex):  # &expr
+    def __init__(s, e):
+        s.e = e
+
+    def rs(s, vk):
+        return "&" + s.e.rs(vk)
+
+    def ev(s, env):
+        return s.e.ev(env)
+
+    def vars(s):
+        return s.e.vars()
+
+    def sub(s, m):
+        return RefOf(s.e.sub(m))
+
+
 class PL:  # literal pattern
     def __init__(s, v):
         s.v = v
@@ -457,7 +508,10 @@ def items_rs(items, vk):
         elif isinstance(it, If):
             out.append("if " + it.e.rs(vk))
         elif isinstance(it, IfLet):
-            out.append("if let %s = %s" % (it.p.rs(), it.e.rs(vk)))
+            rhs = it.e.rs(vk)
+            if isinstance(it.p, PRef) and rhs.startswith("*"):
+                rhs = rhs[1:]   # a reference pattern matches the reference itself
+            out.append("if let %s = %s" % (it.p.rs(), rhs))
         elif isinstance(it, Let):
             out.append("let %s = %s" % (it.p.rs(), it.e.rs(vk)))
         elif isinstance(it, For):
